@@ -362,6 +362,12 @@ def simpleElse : Items → Bool
 def okName (m : Str) : Bool :=
   !m.isEmpty && m.all (fun c => c != ';' && c != '=' && c != '(') && m != ['0']
 
+/-- every macro named by a conditional of the directive list is a well-formed name -/
+def dirsOk (ds : List Dir) : Bool :=
+  ds.all fun d => match d with
+    | .opn _ m => okName m
+    | _ => true
+
 /-- the property's family: pairwise distinct macro names that are neither predefined nor `-U`ndefined,
     no `-D` -/
 def inFamily (inp : Inp) (t : Items) : Bool :=
